@@ -30,13 +30,13 @@ CLAIMED = {
             "ecs_iter_destroy! loops (4 parameter variants, single- and cross-archetype) are driven by generated decision tables; visits, destroyed set, stop-at-break, survivors' handles/values and the direct handles handed to the closure are judged against the model.",
             "decision of visit i is 2 bits of a generated 16-bit word (period 8)", "DESIGN.md 3/C07"),
     "C08": (H, "exploration", "model-based stateful property testing incl. preset generations at the 2^32 boundary",
-            "Every handle returned by any create path is checked against all handles its world lineage issued before; histories may start from generations preset (hook) next to u32::MAX so the overflow boundary is crossed within a few ops, where the default configuration must panic rather than reissue; all 2^24 creations that fill an archetype to the capacity limit (growth clamped at the limit) must return positions not handed out before.",
+            "Every handle returned by any create path is checked against all handles its world lineage issued before; histories may start from generations preset (hook) next to u32::MAX so the overflow boundary is crossed within a few ops, where the default configuration must panic rather than reissue; all 2^24 creations that fill an archetype to the capacity limit (growth clamped at the limit) must return positions not handed out before; extra shards start from 5 120 resp. 98 304 entities in one archetype (indices beyond 16 bits), and every second of the 5 120-entity cases drains the archetype completely and refills it (no handle may come back).",
             "2^32-distant states are reached through the preset hook (reachable combinations only); one real 2^32-cycle run on the optimised build in every tier", "DESIGN.md 3/C08"),
     "C09": (H, "exploration", "model-based stateful property testing of direct handles (mint anywhere, use anywhere)",
             "Direct handles are minted at arbitrary points through to_direct (all key kinds, both levels) and through EntityDirect parameters of all five query macros, and used later through every lookup/destroy path: rejected after any removal, accepted while nothing changed, never designating another entity, and rejected by the archetype-level accessors of every other archetype.",
             "after creations only, both outcomes are allowed (doc comment vs test_direct_basic), but an accepted handle must designate its entity", "DESIGN.md 3/C09"),
     "C12": (H, "exploration", "model-based stateful property testing of len/capacity laws",
-            "After every step len()/is_empty()/capacity() are compared with the model; create_within_capacity must succeed exactly when len < capacity and hand back its argument otherwise; refills must perform exactly capacity - len creations without changing capacity; the free list must have exactly capacity - len nodes; world-level with_capacity must give every archetype its own capacity (one world declares its ids in descending order); the 2^24 limit is reached by growth and by with_capacity in dedicated scenarios; builds: chk, rel, chk with `events`.",
+            "After every step len()/is_empty()/capacity() are compared with the model; create_within_capacity must succeed exactly when len < capacity and hand back its argument otherwise; refills must perform exactly capacity - len creations without changing capacity; the free list must have exactly capacity - len nodes; world-level with_capacity must give every archetype its own capacity (one world declares its ids in descending order); the 2^24 limit is reached by growth and by with_capacity in dedicated scenarios; extra shards start from 5 120 resp. 98 304 entities in one archetype, and every second of the 5 120-entity cases drains that archetype completely and creates in it again (capacity must not shrink); builds: chk, rel, chk with `events`.",
             "the doubling formula is not asserted; the thorough tier runs the 2^24 scenarios from seven starting capacities instead of two", "DESIGN.md 3/C12"),
     "C13": (H, "exploration", "model-based stateful property testing with cloned worlds and diverging histories",
             "Clones are taken at arbitrary points; the full probe suite must give identical answers on the clone immediately, and afterwards each world is checked against its own model after every step, so bleed-through shows up in the untouched world; both can be refilled to capacity. Clones are also taken as `dst.clone_from(&w)`, under AddressSanitizer, with the `events` feature (pending events), and of a world whose archetype holds 2^24 entities.",
@@ -48,13 +48,13 @@ CLAIMED = {
             "Every point at which user code is called back in a generated history (k-th closure call of each query macro, k-th Clone during clone, k-th Drop during dynamic destroy / world drop) is tried once as a panic, documented overflow panics are reached via generation presets, and afterwards the full oracle suite (handles, values, drops - double drop strict, leaks tolerated -, iteration, len/capacity, representation invariant) must hold for the rest of the history. Fault enumeration is the right level: the fault space of a history is finite and enumerated.",
             "per (op, site) at most 16 (quick) / 64 (thorough) points, evenly spread; capacity overflow at 2^24 only in the thorough tier", "DESIGN.md 3/C10"),
     "C11": (H, "exploration", "exhaustive pair matrix + generated nestings against a RefCell model",
-            "The full outer x inner pair matrix named in the property is enumerated on 8 populations (must-panic and must-not-panic directions, observed values, release after unwinding), plus generated sequences of nestings of depth <= 3. 23 access kinds: find/iter borrow (shared, mutable, OneOf, `_` parameters, direct-handle keys, cross-archetype), Borrow::component(_mut), borrow_slice(_mut), and world- and archetype-level clone / clone_from.",
+            "The full outer x inner pair matrix named in the property is enumerated on 8 populations (must-panic and must-not-panic directions, observed values, release after unwinding), plus generated sequences of nestings of depth <= 3. 23 access kinds: find/iter borrow (shared, mutable, OneOf, `_` parameters, direct-handle keys, cross-archetype), Borrow::component(_mut), borrow_slice(_mut), and world- and archetype-level clone / clone_from; additionally every access kind is made from inside a clone (from a component's Clone impl, while gecs is copying the columns) and must be refused iff it wants a column of the archetype being copied mutably.",
             "pair matrix exhaustive for the stated dimensions on the WMix shapes; deeper nestings sampled", "DESIGN.md 3/C11"),
     "C14": (H, "exploration", "property testing of conversion / Eq / Hash laws over edge-biased generated raw values",
             "from_raw/raw round trips, typed<->dynamic conversions for every archetype, Select* dispatch for declared and undeclared ids (incl. the error variant), reference conversions, Eq/Hash laws and HashSet/HashMap behaviour are checked over generated raw values, pairs differing in exactly one field and direct handles; histories check that created handles carry their creator's ARCHETYPE_ID.",
             "a merely weak hash is not a violation; Eq=>Hash direction only", "DESIGN.md 3/C14"),
     "C17": (H, "exploration", "model-based stateful property testing of the event logs (feature events)",
-            "The harness is built with feature events; after every step the per-archetype and world-level created/destroyed iterators are compared as multisets with the model's logs, size_hint is checked before every next(), the world-level iterators consumed through step_by / skip / nth / count / last must agree with plain next(), and clears must empty the logs without touching entities.",
+            "The harness is built with feature events; after every step the per-archetype and world-level created/destroyed iterators are compared as multisets with the model's logs, size_hint is checked before every next(), the world-level iterators consumed through step_by / skip / nth / count / last must agree with plain next(), and clears must empty the logs without touching entities; a generated client program with the maximum of 256 archetypes is compiled with overflow checks on and run (world-level iterators across all 256 archetypes).",
             "multiset comparison (no ordering guarantee is documented)", "DESIGN.md 3/C17"),
     "C05": (MP, "exploration", "property testing of the macro generators as a library against a reference matcher + differential testing of generated client programs through rustc",
             "Generated (declaration, query) pairs are pushed through the macro crate's own parse/bind/generate code in-process (tens of thousands per run, shrinkable) and compared with a reference matcher written from the documentation: accept/reject and error family, matched archetype set, bound types, columns read. The same generators emit complete client programs that rustc compiles and that are run; their output must equal the reference semantics. Negative programs must be rejected and their twins accepted.",
@@ -66,7 +66,7 @@ CLAIMED = {
             "For every generated program P decorated with k predicates and every one of the 2^k assignments s, P under s must behave exactly like the cfg-free twin P|s: engine M compares the resolved world, matched sets and bound types; engine P compiles P with the --cfg flags of s and the twin without flags, runs both and compares their output with the reference.",
             "k <= 4 (M) / 3 (P); cfg on OneOf (explicit 'not supported' error) and degenerate all-disabled declarations are excluded by construction and counted", "DESIGN.md 3/C16"),
     "C18": (MP, "exploration", "token scan of generated expansions + rustc's forbid(unsafe_code) on generated programs + grammar-generated negative/twin compile corpus",
-            "(a) every expansion produced by engine M (hundreds of thousands; generators built with and without the macro crate's `events` feature) is scanned for `unsafe` and for lint-level attributes, and every positive program of engine P carries #![forbid(unsafe_code)]; (b) 447 negative programs generated from the holder x structural-change grammar and the alias / &mut-entity / smuggling / nested-change / Send / Sync families must be rejected by rustc while each sound twin compiles; a sample of the corpus is also compiled against gecs built with `events`.",
+            "(a) every expansion produced by engine M (hundreds of thousands; generators built with and without the macro crate's `events` feature) is scanned for `unsafe` and for lint-level attributes, and every positive program of engine P carries #![forbid(unsafe_code)]; (b) 447 negative programs generated from the holder x structural-change grammar and the alias / &mut-entity / smuggling / nested-change / Send / Sync families must be rejected by rustc while each sound twin compiles; the families include the auto traits of the iterators of the direct API (Archetype::iter / iter_mut must not be Send / Sync for !Send / !Sync components); a sample of the corpus is also compiled against gecs built with `events`, the whole corpus against gecs built with `32_components`.",
             "(a) is universally quantified over generator output: sampling + rustc's lint on every sampled program is what this family of technique offers; (b) is a finite grammar, enumerated completely", "DESIGN.md 3/C18"),
     "C19": (H, "exploration", "configuration matrix (8 feature sets x debug/release) x model-based histories, differential trace comparison, feature-delta compile programs",
             "The harness is rebuilt under all 16 configurations; the same seeded histories must pass every oracle everywhere (incl. C03's forged-handle oracle and, under wrapping_version, boundary-crossing histories), the trace of everything the oracle is lenient about must be identical across builds, and fixed client programs check the documented deltas (event API iff events, 17/32-component archetypes iff 32_components); a generated 256-archetype program is run with overflow checks on under every feature set with events; the 2^24 capacity-limit scenario runs in every configuration.",
